@@ -45,7 +45,9 @@ def gen_data(rng):
         y = rng.normal(0, 1, m) * float(rng.choice([1, 10]))
     else:
         y = float(rng.normal(0, 3)) * u + float(rng.normal(0, 2))
-    if rng.integers(0, 3) == 0:
+    if t != 3 and rng.integers(0, 5) == 0:
+        y = y - y.mean()            # centred series: the level is zero to rounding, not exactly
+    elif rng.integers(0, 3) == 0:
         # a level far from zero compared with the wiggles (traffic volumes): anything that rescales instead of smoothing
         # moves every sample by level * epsilon
         y = y + float(rng.choice([10.0, 1000.0, -50.0, 1e6]))
